@@ -1,6 +1,48 @@
-(* C01 — Array programs compute what NumPy computes.  (statements are added as the
-   expression calculus grows; see DESIGN.md) *)
-From DA Require Import PyBase.
+(* C01 — Array programs compute what NumPy computes.
+   The reference semantics of the expression calculus (theories/NdArray.v) is NumPy's: an
+   operation is an index remapping.  The theorems below say that the remappings are total on
+   the result's index space (an in-bounds result index is always read from an in-bounds
+   operand index: basic slicing, broadcasting, transposition), and that the public
+   __getitem__ (normalize_index, the all-colon shortcut, SliceSlicesIntegers) denotes
+   NumPy's basic slice  x[ix]. *)
+From DA Require Import PyBase Slicing NdArray NdArrayFacts ExprRules ExprRulesFacts.
 Open Scope Z_scope.
-Example C01_placeholder : zsum [1;2;3] = 6. Proof. reflexivity. Qed.
-Print Assumptions C01_placeholder.
+
+(* x[ix]: element j along a sliced axis is read from position nth j (sel s n) of that axis,
+   an integer i from position i (i + n if negative) — always inside the operand *)
+Theorem C01_slice_reads_in_bounds :
+  forall ix shp out, nonneg_shape shp -> idx_okb ix shp = true ->
+  in_bounds out (slice_shape ix shp) -> in_bounds (slice_src ix shp out) shp.
+Proof. exact slice_src_in_bounds. Qed.
+
+(* broadcasting: an operand whose shape broadcasts into the result shape is read in bounds *)
+Theorem C01_broadcast_reads_in_bounds :
+  forall sa o out, bcast_intob sa o = true -> in_bounds out o -> in_bounds (bidx sa out) sa.
+Proof. intros sa o out H. apply bidx_in_bounds. apply bcast_intob_spec. exact H. Qed.
+
+(* transposition by a permutation of the axes *)
+Theorem C01_transpose_reads_in_bounds :
+  forall axes shp out, is_permb axes (length shp) = true ->
+  in_bounds out (transpose_shape axes shp) -> in_bounds (transpose_src axes out) shp.
+Proof. intros axes shp out H. apply (transpose_src_in_bounds axes (length shp) H). reflexivity. Qed.
+
+(* Array.__getitem__ with integers and slices denotes the NumPy slice, whatever the values *)
+Theorem C01_getitem_denotes_numpy_slice :
+  forall (V : Type) leafv constv fop inj x ix y,
+  wfb x = true -> length ix = endim x -> mk_getitem x ix = Some y ->
+  aeq (den V leafv constv fop inj y) (aslice ix (den V leafv constv fop inj x)).
+Proof. intros V leafv constv fop inj x ix y Hw Hl H. apply (mk_getitem_sound V leafv constv fop inj x ix y Hw Hl H). Qed.
+
+(* the slice of a 1-d array, concretely: x[7:1:-2] of a length-9 axis reads positions 7, 5, 3 *)
+Example C01_slice_ex :
+  let a := mkarr [9] (fun idx => hd 0 idx * 10) in
+  to_list (aslice [ISlice (mkslice (Some 7) (Some 1) (Some (-2)))] a) = [70; 50; 30] /\
+  shape (aslice [ISlice (mkslice (Some 7) (Some 1) (Some (-2)))] a) = [3] /\
+  (* broadcasting (3,1) with (4,) gives (3,4) *)
+  bshape [3; 1] [4] = [3; 4] /\ bidx [3; 1] [2; 3] = [2; 0] /\ bidx [4] [2; 3] = [3].
+Proof. vm_compute. repeat split; reflexivity. Qed.
+
+Print Assumptions C01_slice_reads_in_bounds.
+Print Assumptions C01_broadcast_reads_in_bounds.
+Print Assumptions C01_transpose_reads_in_bounds.
+Print Assumptions C01_getitem_denotes_numpy_slice.
